@@ -16,7 +16,7 @@ from ..world import EPS, World, default_inputs_backward, gen_sched, run_call
 ID = "C08"
 LEVEL = "exploration"
 BUDGET = {
-    "quick": {"runs": 2400, "wall": 300, "chunk": 20},
+    "quick": {"runs": 4000, "wall": 300, "chunk": 20},
     "thorough": {"runs": 30000, "wall": 3000, "chunk": 100},
 }
 EXACT = ["Mean", "Sum", "Constant", "TrimmedMean", "Krum", "Random"]
